@@ -99,7 +99,7 @@ def view : Sel.View env where
     simp only [env, step, upd_apply]; split <;> simp
   step_ctr _ _ _ := rfl
   step_done i s a := by
-    simp [env, done, step, Params.flpDoneCmp, Cmp.eval]
+    simp [env, done, step, Params.flpDoneCmp, Params.flpDoneOffset, Cmp.eval]
 
 /-- `chosen` is the set of the selections so far -/
 theorem chosen_eq {i : Inst} {s : State} {as : List Nat} (h : Run env i (env.reset i) as s) (j : Nat) :
@@ -121,7 +121,32 @@ theorem dist_eq_curMin {i : Inst} {s : State} {as : List Nat} (h : Run env i (en
 theorem curMin_eq_nearest {i : Inst} {s : State} {as : List Nat} (h : Run env i (env.reset i) as s)
     (hne : as ≠ []) (j : Nat) : curMinDist i s.chosen j = Spec.Flp.nearest i as j := by
   have hok := (Sel.inv_of_run view h).ok
-  unfold curMinDist Spec.Flp.nearest chosenIdx
+  simp only [curMinDist, minOver, gathered, Params.flpStepGatherDim, Params.flpStepMinDim, if_true,
+    Spec.Flp.nearest, chosenIdx]
+  have hmem : ∀ c, c ∈ (List.range i.n).filter s.chosen ↔ c ∈ as := by
+    intro c
+    simp only [List.mem_filter, List.mem_range, chosen_eq h c, decide_eq_true_eq]
+    constructor
+    · exact fun hh => hh.2
+    · exact fun hh => ⟨(hok c hh).1, hh⟩
+  apply minList_congr
+  · obtain ⟨a, ha⟩ := List.exists_mem_of_ne_nil as hne
+    intro h0
+    have : i.D a j ∈ List.map (fun c => i.D c j) ((List.range i.n).filter s.chosen) :=
+      List.mem_map.mpr ⟨a, (hmem a).mpr ha, rfl⟩
+    rw [h0] at this; cases this
+  · intro x
+    simp only [List.mem_map]
+    constructor
+    · rintro ⟨c, hc, rfl⟩; exact ⟨c, (hmem c).mp hc, rfl⟩
+    · rintro ⟨c, hc, rfl⟩; exact ⟨c, (hmem c).mpr hc, rfl⟩
+
+/-- the same for the expression of `_get_reward` -/
+theorem rewardMin_eq_nearest {i : Inst} {s : State} {as : List Nat} (h : Run env i (env.reset i) as s)
+    (hne : as ≠ []) (j : Nat) : rewardMinDist i s.chosen j = Spec.Flp.nearest i as j := by
+  have hok := (Sel.inv_of_run view h).ok
+  simp only [rewardMinDist, minOver, gathered, Params.flpRewardGatherDim, Params.flpRewardMinDim, if_true,
+    Spec.Flp.nearest, chosenIdx]
   have hmem : ∀ c, c ∈ (List.range i.n).filter s.chosen ↔ c ∈ as := by
     intro c
     simp only [List.mem_filter, List.mem_range, chosen_eq h c, decide_eq_true_eq]
@@ -158,7 +183,7 @@ def view : Sel.View env where
     simp only [env, step, upd_apply]; split <;> simp
   step_ctr _ _ _ := rfl
   step_done i s a := by
-    simp [env, done, step, Params.mcpDoneCmp, Cmp.eval]
+    simp [env, done, step, Params.mcpDoneCmp, Params.mcpDoneOffset, Cmp.eval]
 
 theorem chosen_eq {i : Inst} {s : State} {as : List Nat} (h : Run env i (env.reset i) as s) (j : Nat) :
     s.chosen j = decide (j ∈ as) := by
@@ -167,15 +192,16 @@ theorem chosen_eq {i : Inst} {s : State} {as : List Nat} (h : Run env i (env.res
   cases hc : s.chosen j <;> cases hd : decide (j ∈ as) <;> simp_all
 
 /-- `coveredBy` over a membership table whose selected rows are `orig` rows of `sel` -/
-theorem coveredBy_iff (nSets maxSize : Nat) (mem : Nat → Nat → Nat) (chosen : Nat → Bool) (x : Nat) :
-    coveredBy nSets maxSize mem chosen x = true ↔
-      ∃ j, j < nSets ∧ chosen j = true ∧ ∃ k, k < maxSize ∧ mem j k = x + 1 := by
+theorem coveredBy_iff (off nSets maxSize : Nat) (mem : Nat → Nat → Nat) (chosen : Nat → Bool) (x : Nat)
+    (hoff : 0 < off) :
+    coveredBy off nSets maxSize mem chosen x = true ↔
+      ∃ j, j < nSets ∧ chosen j = true ∧ ∃ k, k < maxSize ∧ mem j k = x + off := by
   simp only [coveredBy, List.any_eq_true, List.mem_range, beq_iff_eq]
   constructor
   · rintro ⟨j, hj, k, hk, h⟩
     by_cases hc : chosen j = true
     · simp only [hc, if_true] at h; exact ⟨j, hj, hc, k, hk, h⟩
-    · simp [hc] at h
+    · simp [hc] at h; omega
   · rintro ⟨j, hj, hc, k, hk, h⟩
     exact ⟨j, hj, k, hk, by simp [hc, h]⟩
 
@@ -202,7 +228,7 @@ theorem inv2_of_run {i : Inst} {s : State} {as : List Nat} (h : Run env i (env.r
     intro s h a ⟨hg, h2⟩ ha hm
     refine ⟨Sel.inv_step view i s h a hg ha hm, ?_, ?_⟩
     · intro j k
-      simp only [env, step, upd_apply]
+      simp only [env, step, upd_apply, Params.mcpKeepRemainingRows, if_true]
       by_cases hj : j = a
       · simp [hj]
       · simp only [hj, if_false, h2.mem j k]
@@ -211,8 +237,10 @@ theorem inv2_of_run {i : Inst} {s : State} {as : List Nat} (h : Run env i (env.r
       have hnot : s.chosen a = false := by
         have : mask i s a = true := hm
         simpa [mask] using this
-      have hcov : coveredBy i.nSets i.maxSize s.mem (upd s.chosen a true) x = Spec.Mcp.member i a x := by
-        rw [Bool.eq_iff_iff, coveredBy_iff, member_iff]
+      have hcov : coveredBy Params.mcpStepItemOffset i.nSets i.maxSize s.mem (upd s.chosen a true) x =
+          Spec.Mcp.member i a x := by
+        rw [Bool.eq_iff_iff, coveredBy_iff _ _ _ _ _ _ (by decide : 0 < Params.mcpStepItemOffset), member_iff]
+        simp only [Params.mcpStepItemOffset]
         constructor
         · rintro ⟨j, _, hc, k, hk, hjk⟩
           rw [h2.mem j k] at hjk
@@ -229,10 +257,11 @@ theorem inv2_of_run {i : Inst} {s : State} {as : List Nat} (h : Run env i (env.r
 
 /-- the reward's coverage test over the original membership = Spec coverage by the selection -/
 theorem coveredBy_orig_eq {i : Inst} {s : State} {as : List Nat} (h : Run env i (env.reset i) as s)
-    (x : Nat) : coveredBy i.nSets i.maxSize i.mem s.chosen x = Spec.Mcp.covered i as x := by
+    (x : Nat) : coveredBy Params.mcpRewardItemOffset i.nSets i.maxSize i.mem s.chosen x =
+      Spec.Mcp.covered i as x := by
   have hok := (Sel.inv_of_run view h).ok
-  rw [Bool.eq_iff_iff, coveredBy_iff]
-  simp only [Spec.Mcp.covered, List.any_eq_true, member_iff]
+  rw [Bool.eq_iff_iff, coveredBy_iff _ _ _ _ _ _ (by decide : 0 < Params.mcpRewardItemOffset)]
+  simp only [Spec.Mcp.covered, List.any_eq_true, member_iff, Params.mcpRewardItemOffset]
   constructor
   · rintro ⟨j, _, hc, hk⟩
     rw [chosen_eq h j] at hc
@@ -246,7 +275,7 @@ end Mcp
 namespace Dpp
 
 /-- mask of the reset state -/
-def allowed0 (i : Inst) (j : Nat) : Bool := if i.multi then (i.avail j && !(i.probe j)) else i.avail j
+def allowed0 (i : Inst) (j : Nat) : Bool := (reset i).am j
 
 def view : Sel.View env where
   quota i := i.quota
@@ -257,10 +286,10 @@ def view : Sel.View env where
   reset_am _ _ := rfl
   reset_ctr _ := rfl
   reset_done _ := rfl
-  step_am _ _ _ _ := rfl
+  step_am _ _ _ _ := by simp [env, step, Params.dppScatterValue]
   step_ctr _ _ _ := rfl
   step_done i s a := by
-    simp [env, done, step, Params.dppDoneCmp, Cmp.eval]
+    simp [env, done, step, Params.dppDoneCmp, Params.dppDoneOffset, Cmp.eval]
 
 /-- the instance contract `DPPEnv` relies on (its reset does not re-mask the probing port; the
 bundled generator clears it): an instance mask never offers a probing port.  Not needed for MDPP. -/
@@ -268,7 +297,7 @@ def ProbeMasked (i : Inst) : Prop := ∀ j, i.probe j = true → i.avail j = fal
 
 theorem allowed0_eq_spec (i : Inst) (h : i.multi = true ∨ ProbeMasked i) (j : Nat) :
     allowed0 i j = Spec.Dpp.allowed i j := by
-  unfold allowed0 Spec.Dpp.allowed
+  simp only [allowed0, reset, Params.mdppResetProbeNegated, if_true, Spec.Dpp.allowed]
   rcases h with h | h
   · simp [h]
   · by_cases hm : i.multi = true
